@@ -26,9 +26,11 @@ def c18yn (b : Bool) : String := if b then "yes" else "no"
 
 def showRun (r : Exit × List FsOp) : List (String × String) :=
   [("exit", toString r.1.code), ("exit012", c18yn (r.1.code ≤ 2)), ("rtpanic", c18yn (r.1 == .panic)),
-   ("changed", c18yn (!r.2.isEmpty)), ("changed-on-failure", c18yn (r.1 != .ok && !r.2.isEmpty))]
+   ("changed", c18yn (!r.2.isEmpty)), ("changed-on-failure", c18yn (r.1 != .ok && !r.2.isEmpty)),
+   -- every modelled non-zero exit prints a usage text or a logx.Fatal line; a panic prints only a stack trace
+   ("silent-failure", c18yn (r.1 == .panic))]
 
-def c18Spec : List (String × String) := [("exit012", "yes"), ("rtpanic", "no"), ("changed-on-failure", "no")]
+def c18Spec : List (String × String) := [("exit012", "yes"), ("rtpanic", "no"), ("changed-on-failure", "no"), ("silent-failure", "no")]
 
 def cli18Case (id : String) (payload : List Sexp) : List String :=
   let p := Sexp.list (.atom "p" :: payload)
